@@ -233,6 +233,58 @@ def fwdjump_family(rng):
     return prog
 
 
+def selfret_family(rng):
+    """a command that first takes a conditional jump to a label (so that it becomes the last jump source) and,
+    coming round again, evaluates to the return heart: the return jump leads to the command ITSELF, for ever.
+    Values stay small (NaN from an empty stack).  A jump counter that looks only at backward or only at forward
+    jumps misses it."""
+    t = rng.choice([2, 4, 5, 7, 9, 12])
+    op = rng.choice([63, 33])
+    take = 1 if op == 63 else 3                      # ? takes its left below the count (3), ! at the count
+    pre = [C(0, 1, rng.choice([1, 2, 5])) for _ in range(rng.randint(0, 3))]
+    body = [C(0, 1, take)]
+    if rng.random() < 0.5:
+        body = [C(0, 1, take), C(0, 1, take)]
+    lab = C(rng.choice([1, 1, 2, 3, 4]), 1, 3, H(t))
+    ret = C(rng.choice([1, 1, 2, 3, 4, 5]), 1, 3, [op] + H(t) + H(13))
+    mid = []
+    if rng.random() < 0.4:
+        mid = [C(0, 70 + rng.randint(0, 9), 1), C(1, 1, 1)]          # visible output before the loop closes
+    post = [C(0, 65, 1), C(1, 1, 1)] if rng.random() < 0.5 else []
+    return pre + body + [lab] + mid + [ret] + post
+
+
+def twolabel_family(rng):
+    """one command registers TWO labels: its area chooses between two hearts, it is visited twice in the part a
+    level-2 optimiser can pre-execute (second visit through a jump to the label registered by the first) and
+    takes a different heart each time.  Then pre-execution is stopped (a pop from stack 0) and the residual
+    program jumps to both labels."""
+    a, b = rng.sample([2, 3, 4, 5, 7, 9, 12], 2)
+    letters = iter(range(65, 91))
+    def pr():
+        return [C(0, next(letters, 90), 1), C(1, 1, 1)]
+    def cond(h1, h2=None):
+        # (area, value taking the first heart, value taking the second / falling through)
+        second = H(h2) if h2 else NIL
+        if rng.random() < 0.6:
+            return [63] + H(h1) + second, rng.choice([0, 1, 2]), 5
+        return [33] + H(h1) + second, 3, 5
+    aL, L_first, L_second = cond(a, b)
+    aJ, J_take, J_skip = cond(b)
+    x, y = (a, b) if rng.random() < 0.5 else (b, a)
+    aR1, R1_take, R1_skip = cond(x)
+    aR2, R2_take, R2_skip = cond(y)
+    # popped top first: L takes b (registers it), J jumps to it, L takes a (second label), J falls through,
+    # then the residual part: R1 jumps (its value exists twice: the cut duplicates it), ...
+    order = [L_second, J_take, L_first, J_skip, R1_take, L_second, J_skip, R1_skip, R2_take, L_first, J_skip, R1_skip, R2_skip]
+    order += [rng.choice([0, 3, 5]) for _ in range(rng.randint(0, 3))]
+    prog = [C(0, 1, v) for v in reversed(order)]
+    prog += [C(1, 1, 3, aL)] + pr() + [C(1, 1, 3, aJ)] + pr()
+    prog += [C(5, 1, 0), C(5, 1, 3)]                       # a pop from stack 0: pre-execution stops here
+    prog += [C(1, 1, 3, aR1)] + pr() + [C(1, 1, 3, aR2)] + pr()
+    return prog
+
+
 def mutate(rng, prog):
     p = [dict(c) for c in prog]
     i = rng.randrange(len(p))
@@ -608,6 +660,7 @@ def check_c01(pid, tier, seed, replay):
             ck.sample(prog_text(json.loads(f.readline())["prog"]))
     # (T) structured random programs far beyond the enumeration bound
     tcases = gen_cases(rng, 220 if quick else 6000)
+    tcases += [{"prog": selfret_family(rng), "input": []} for _ in range(20 if quick else 400)]
     work = tmpdir("c01_T")
     cpath = os.path.join(work, "cases.json")
     write_cases(cpath, tcases)
